@@ -56,11 +56,19 @@ def run_traced(argv, stdin=b"", cwd=None, env=None, timeout=40):
     e["NO_COLOR"] = "1"
     if env:
         e.update(env)
+    # own session: on a time-out the traced program is killed together with strace
+    p = subprocess.Popen(["strace", "-f", "-qq", "-s", "300", "-o", tf, "-e", "trace=" + TRACE] + argv, stdin=subprocess.PIPE, stdout=subprocess.PIPE, stderr=subprocess.PIPE,
+                         cwd=cwd, env=e, start_new_session=True)
     try:
-        p = subprocess.run(["strace", "-f", "-qq", "-s", "300", "-o", tf, "-e", "trace=" + TRACE] + argv, input=stdin, stdout=subprocess.PIPE, stderr=subprocess.PIPE,
-                           cwd=cwd, env=e, timeout=timeout)
+        p.communicate(stdin, timeout=timeout)
         rc = p.returncode
     except subprocess.TimeoutExpired:
+        import signal
+        try:
+            os.killpg(p.pid, signal.SIGKILL)
+        except ProcessLookupError:
+            pass
+        p.communicate()
         rc = -999
     text = open(tf, errors="replace").read()
     os.remove(tf)
